@@ -4,11 +4,11 @@
 //   getBuffer, getBufferSize, swap, allocateBuffer, constructObjects}, detail::log2i,
 //   detail::alignedMalloc/alignedFree, std::vector<T**>::push_back (deleteLater_).
 // Symbolic: which scenario (initialSize and the sequence of grow_by deltas) is run, the element payload
-//   (seeds), all probe indices.  Fixed per instance: minBuffSize, the whole-container operation (VF_OP:
+//   (seeds).  The forall over elements is a loop with literal bounds inside each scenario.  Fixed per instance: minBuffSize, the whole-container operation (VF_OP:
 //   0 copy-construct, 1 copy-assign, 2 move-assign, 3 swap, 4 move-construct, 5 self-copy-assign).
 // Every element i of an arena with payload seed s is written with f(s,i) = s + 3*i + 1 right after the
 // grow_by that created it, so "contents are equal" can be stated without a ghost array:
-// for a symbolic probe index q < size, dst[q] == f(seed of the source, q).
+// for every q < size, dst[q] == f(seed of the source, q).
 #include <new>
 #include <utility>
 #include <cstdlib>
@@ -70,73 +70,82 @@ static inline int32_t f(uint32_t seed, Index i) { return (int32_t)(seed + 3u * (
 
 struct Model {
   Arena* a;
-  uint32_t seed;    // payload of elements [0, n)
-  Index n;          // expected size
-  Index probe;      // symbolic element whose address is tracked across growth
-  Elem* probeAddr;  // address of element `probe`, recorded when it came into existence
+  uint32_t seed;         // payload of elements [0, n)
+  Index n;               // expected size (a literal in every scenario)
+  Elem* addr[kMaxN];     // address of every element, recorded when it came into existence
 };
 
-__attribute__((always_inline)) static inline void noteProbe(Model& m) {
-  if (m.probeAddr == nullptr && m.probe < m.n) m.probeAddr = &(*m.a)[m.probe];
-}
+#define INL __attribute__((always_inline)) static inline
 
-// element at `probe` has not moved and still holds its value
-__attribute__((always_inline)) static inline void checkStable(Model& m) {
-  if (m.probeAddr != nullptr) {
-    vf_check(&(*m.a)[m.probe] == m.probeAddr, "growth keeps the address of every existing element");
-    vf_check(val(*m.probeAddr) == f(m.seed, m.probe), "growth keeps the value of every existing element");
+// no existing element has moved or changed (the forall over elements is a loop with literal bounds)
+INL void checkStable(Model& m) {
+  for (Index i = 0; i < m.n; ++i) {
+    vf_check(&(*m.a)[i] == m.addr[i], "growth keeps the address of every existing element");
+    vf_check(val(*m.addr[i]) == f(m.seed, i), "growth keeps the value of every existing element");
   }
 }
 
 // elements [from, m.n) were just created by the arena: default constructed; fill them with the payload
-__attribute__((always_inline)) static inline void checkFresh(Model& m, Index from) {
+INL void checkFresh(Model& m, Index from) {
   for (Index i = from; i < m.n; ++i) {
     vf_check(val((*m.a)[i]) == kDefault, "new elements are default-constructed");
     val((*m.a)[i]) = f(m.seed, i);
+    m.addr[i] = &(*m.a)[i];
   }
 }
 
 // arena `a` was just built by the real constructor with `init` initial elements
-__attribute__((always_inline)) static inline void adopt(Model& m, Arena* a, Index init, uint32_t seed) {
+INL void adopt(Model& m, Arena* a, Index init, uint32_t seed) {
   m.a = a;
   m.seed = seed;
-  m.probe = (Index)vf_range_u32(0, kMaxN - 1);
-  m.probeAddr = nullptr;
   m.n = init;
   vf_check(m.a->size() == init, "constructor creates initialSize elements");
   checkFresh(m, 0);
-  noteProbe(m);
 }
 
-__attribute__((always_inline)) static inline void grow(Model& m, Index d) {
+INL void grow(Model& m, Index d) {
   Index r = m.a->grow_by(d);
   vf_check(r == m.n, "grow_by returns the previous size: ranges are contiguous, disjoint, union is [0,size())");
   vf_check(m.a->size() == (Index)(m.n + d), "size() grows by exactly delta");
+  checkStable(m);
   Index from = m.n;
   m.n = (Index)(m.n + d);
   checkFresh(m, from);
-  checkStable(m);
-  noteProbe(m);
 }
 
 // arena `x` holds exactly n elements with payload `seed`
-__attribute__((always_inline)) static inline void checkContents(Arena& x, uint32_t seed, Index n) {
+INL void checkContents(Arena& x, uint32_t seed, Index n) {
   vf_check(x.size() == n, "size is identical after copy/move/swap");
-  Index q = (Index)vf_range_u32(0, kMaxN - 1);
-  if (q < n) {
+  for (Index q = 0; q < n; ++q)
     vf_check(val(x[q]) == f(seed, q), "contents are element-wise identical after copy/move/swap");
-#ifdef VF_BUFFER_API
-    // documented accessors agree with operator[]
-    Index nb = x.numBuffers();
-    Index total = 0;
-    for (Index b = 0; b < nb; ++b) total = (Index)(total + x.getBufferSize(b));
-    vf_check(total == n, "used buffer sizes add up to size()");
-#endif
+  // documented accessors agree with size(): used buffer sizes add up
+  Index nb = x.numBuffers();
+  Index total = 0;
+  for (Index b = 0; b < nb; ++b) total = (Index)(total + x.getBufferSize(b));
+  vf_check(total == n, "getBufferSize() over all buffers adds up to size()");
+}
+
+// D describes arena `x` that took over the elements of S (move / swap): same storage
+INL void takeOver(Model& D, const Model& S, Arena* x) {
+  D.a = x;
+  D.seed = S.seed;
+  D.n = S.n;
+  for (Index i = 0; i < S.n; ++i) D.addr[i] = S.addr[i];
+}
+
+// D describes arena `x` that is a copy of S: own storage
+INL void copyOf(Model& D, const Model& S, Arena* x) {
+  D.a = x;
+  D.seed = S.seed;
+  D.n = S.n;
+  for (Index i = 0; i < S.n; ++i) {
+    D.addr[i] = &(*x)[i];
+    if (x != S.a) vf_check(D.addr[i] != S.addr[i], "a copy owns its own storage");
   }
 }
 
 // the destination D of the operation is a fully functional arena: grow it further, re-check everything
-__attribute__((always_inline)) static inline void after(uint32_t op, Model& D, Model& A, Index post) {
+INL void after(uint32_t op, Model& D, Model& A, Index post) {
   grow(D, post);
   checkContents(*D.a, D.seed, D.n);
   if (op <= 1) {
@@ -150,9 +159,8 @@ __attribute__((always_inline)) static inline void after(uint32_t op, Model& D, M
 // One scenario: every size-determining parameter (minBuffSize, initialSize, the grow_by deltas) is a literal
 // at the call site, so that buffer sizes, table capacities and buffer counts are constants for the solver
 // (with symbolic deltas every heap object has a symbolic size and the array theory does not terminate in
-// hours).  The scenario itself is selected by a symbolic input in vf_main, payload and probe indices stay
-// symbolic.
-__attribute__((always_inline)) static inline void scenario(
+// hours).  The scenario itself is selected by a symbolic input in vf_main, the payload stays symbolic.
+INL void scenario(
     const Index minA, const Index initA, const Index g1, const Index g2, const Index g3, const Index post,
     const uint32_t op) {
   Model A, B, D;
@@ -174,12 +182,7 @@ __attribute__((always_inline)) static inline void scenario(
       Arena c(a);
       checkContents(c, A.seed, A.n);
       checkContents(a, A.seed, A.n);
-      D = A;
-      D.a = &c;
-      D.probeAddr = nullptr;
-      noteProbe(D);
-      if (A.probeAddr != nullptr)
-        vf_check(D.probeAddr != A.probeAddr, "a copy owns its own storage");
+      copyOf(D, A, &c);
       after(op, D, A, post);
       break;
     }
@@ -187,20 +190,14 @@ __attribute__((always_inline)) static inline void scenario(
       b = a;
       checkContents(b, A.seed, A.n);
       checkContents(a, A.seed, A.n);
-      D = A;
-      D.a = &b;
-      D.probeAddr = nullptr;
-      noteProbe(D);
-      if (A.probeAddr != nullptr)
-        vf_check(D.probeAddr != A.probeAddr, "a copy owns its own storage");
+      copyOf(D, A, &b);
       after(op, D, A, post);
       break;
     }
     case 2: {  // move assignment: destination takes over the source's elements (source: only destructible)
       b = std::move(a);
       checkContents(b, A.seed, A.n);
-      D = A;
-      D.a = &b;
+      takeOver(D, A, &b);
       checkStable(D);
       after(op, D, A, post);
       break;
@@ -209,10 +206,8 @@ __attribute__((always_inline)) static inline void scenario(
       swap(a, b);
       checkContents(a, B.seed, B.n);
       checkContents(b, A.seed, A.n);
-      D = A;
-      D.a = &b;
-      A = B;
-      A.a = &a;
+      takeOver(D, A, &b);
+      takeOver(A, B, &a);
       checkStable(A);
       checkStable(D);
       after(op, D, A, post);
@@ -221,8 +216,7 @@ __attribute__((always_inline)) static inline void scenario(
     case 4: {  // move construction (source: only destructible)
       Arena c(std::move(a));
       checkContents(c, A.seed, A.n);
-      D = A;
-      D.a = &c;
+      takeOver(D, A, &c);
       checkStable(D);
       after(op, D, A, post);
       break;
@@ -230,9 +224,7 @@ __attribute__((always_inline)) static inline void scenario(
     default: {  // self copy assignment
       a = a;
       checkContents(a, A.seed, A.n);
-      D = A;
-      D.probeAddr = nullptr;
-      noteProbe(D);
+      copyOf(D, A, &a);
       after(op, D, A, post);
       break;
     }
@@ -252,7 +244,8 @@ __attribute__((always_inline)) static inline void scenario(
 // destination afterwards cycles through 0..VF_DB-1 with k
 #define SC(k)                                                                                         \
   case (k):                                                                                           \
-    scenario(VF_MINBUF, (k) % VF_DB, ((k) / VF_DB) % VF_DB, ((k) / (VF_DB * VF_DB)) % VF_DB,          \
+    if ((k) < VF_NSC)                                                                                 \
+      scenario(VF_MINBUF, (k) % VF_DB, ((k) / VF_DB) % VF_DB, ((k) / (VF_DB * VF_DB)) % VF_DB,          \
              ((k) / (VF_DB * VF_DB * VF_DB)) % VF_DB, ((k) + (k) / VF_DB + 1) % VF_DB, VF_OP);         \
     break;
 #define SC3(k) SC(k) SC((k) + 1) SC((k) + 2)
